@@ -25,9 +25,9 @@ var checks = map[string]checkSpec{
 		Rule: "The exported ConsumerGroup API driven directly by 1-3 members: Next loops, 0-4 functions per generation (prompt, lingering, self-exiting, late-started), Close at a seeded instant, coordinator answers drawn from success / error codes / cuts / slow / stalls on every group API, evictions, partition additions with the watcher; oracles R1-R6 over function lifetimes and the coordinator journal (exact simulated instants in fault-free timing).",
 	},
 	"C09": {
-		Scenarios: []scnSpec{{Name: "writer", Params: "close=race", Share: 0.4}, {Name: "group", Params: "lifecycle=1", Share: 0.35}, {Name: "cgroup", Share: 0.25}},
-		Quick:     60 * time.Second, Thorough: 15 * time.Minute, Level: "exploration",
-		Rule: "Close placed by the seeded scheduler anywhere inside concurrent WriteMessages calls (Writer), during joins, syncs, rebalances, fetches and commits with healthy, slow, erroring or silent coordinators (Reader, ConsumerGroup); bounded return of Close, completions before Close returns, io.ErrClosedPipe / io.EOF after Close, context errors at the instant the context ends, no request after Close, LeaveGroup, and a goroutine/connection census after the network time-outs.",
+		Scenarios: []scnSpec{{Name: "writer", Params: "close=race", Share: 0.35}, {Name: "group", Params: "lifecycle=1", Share: 0.3}, {Name: "cgroup", Share: 0.2}, {Name: "ctxend", Share: 0.15}},
+		Quick:     70 * time.Second, Thorough: 15 * time.Minute, Level: "exploration",
+		Rule: "Close placed by the seeded scheduler anywhere inside concurrent WriteMessages calls (Writer), during joins, syncs, rebalances, fetches and commits with healthy, slow, erroring or silent coordinators (Reader, ConsumerGroup); bounded return of Close, completions before Close returns, io.ErrClosedPipe / io.EOF after Close, context errors at the instant the context ends, no request after Close, LeaveGroup, and a goroutine/connection census after the network time-outs. Scenario ctxend blocks Client round trips, FetchMessage/ReadMessage, synchronous CommitMessages and WriteMessages on something that cannot end before the context does (an API the broker never answers, a destination swallowing connection attempts, a partition without new data; every client time-out 30 s) and ends the context by deadline or by cancel from another goroutine: the call must return at that very simulated instant with an error wrapping the context's error.",
 	},
 	"C06": {
 		Scenarios: []scnSpec{{Name: "crosstalk", Share: 1}},
